@@ -41,6 +41,8 @@ type LimitTrace struct {
 	Rejected    string
 	WS, WC      []int64 // per written element (prefilled elements: 0)
 	Recv        []int64
+	Call        []int64 // per received element: when the consumer started to wait for it
+	OutCap      int     // cap(Output())
 	Data        []int
 	Closed      bool
 	ClosedAt    int64
@@ -69,6 +71,7 @@ func runLimit(sc LimitScenario) *LimitTrace {
 		tr.Rejected = err.Error()
 		return tr
 	}
+	tr.OutCap = cap(d.Output())
 	var span int64
 	for _, s := range sc.Steps {
 		span += s.Gap
@@ -111,6 +114,7 @@ func runLimit(sc LimitScenario) *LimitTrace {
 		timer.Reset(maxWait)
 		var v int
 		var ok bool
+		callAt := now()
 		select {
 		case v, ok = <-d.Output():
 		case <-timer.C:
@@ -123,6 +127,7 @@ func runLimit(sc LimitScenario) *LimitTrace {
 			break
 		}
 		tr.Recv = append(tr.Recv, now())
+		tr.Call = append(tr.Call, callAt)
 		tr.Data = append(tr.Data, v)
 		k++
 	}
@@ -225,6 +230,39 @@ func judgeLimit(sc LimitScenario, tr *LimitTrace, inBubble bool) (fs []limitFind
 	if !sc.PrefillClosed && tr.ClosedAt < tr.InputClosed {
 		add("C12", "early-close", "output closed at %dns, before the input was closed (%dns)", tr.ClosedAt, tr.InputClosed)
 	}
+	// (5) no extra throttling, whatever the consumer does (fake clock): the discipline works in
+	// portions of Quantity elements; a portion starts one Interval after the previous one started
+	// or when the previous one was through, whichever is later; inside a portion an element is
+	// forwarded as soon as it has arrived, its predecessor is through and the output has room
+	// (cap(Output()) elements may wait there). m[j] is the latest moment at which element j can
+	// have been put into the output under these rules, computed from the observed arrivals and
+	// receives; the consumer gets it then or when it asks for it, whichever is later.
+	if inBubble && !sc.PrefillClosed && len(tr.Call) == len(tr.Recv) {
+		slack := I / 100
+		m := make([]int64, len(tr.Recv))
+		portionStart := int64(0)
+		for j := range tr.Recv {
+			if j > 0 && int64(j)%Q == 0 {
+				portionStart = max(portionStart+I, m[j-1])
+			}
+			v := portionStart
+			if j >= sc.Prefill && j < len(tr.WS) && tr.WS[j] > v {
+				v = tr.WS[j]
+			}
+			if j > 0 && m[j-1] > v {
+				v = m[j-1]
+			}
+			if k := j - tr.OutCap; k >= 0 && tr.OutCap > 0 && tr.Recv[k] > v {
+				v = tr.Recv[k]
+			}
+			m[j] = v
+			bound := max(v, tr.Call[j])
+			if tr.Recv[j] > bound+slack {
+				add("C12", "throttled-below-rate-any-consumer", "element #%d (0-based %d): arrived at %dns, its portion could start at %dns, its predecessor was through at %dns, the output (capacity %d) had room, the consumer asked for it at %dns - it could be received at %dns but was received at %dns (rate %d per %dns)", j+1, j, wsOf(tr, sc, j), portionStart, prevM(m, j), tr.OutCap, tr.Call[j], bound, tr.Recv[j], sc.Q, I)
+				break
+			}
+		}
+	}
 	// no extra throttling: fake clock, ready consumer
 	if inBubble && eager {
 		if int64(total) < Q && !sc.PrefillClosed {
@@ -289,6 +327,20 @@ func judgeLimit(sc LimitScenario, tr *LimitTrace, inBubble bool) (fs []limitFind
 		}
 	}
 	return
+}
+
+func wsOf(tr *LimitTrace, sc LimitScenario, j int) int64 {
+	if j >= sc.Prefill && j < len(tr.WS) {
+		return tr.WS[j]
+	}
+	return 0
+}
+
+func prevM(m []int64, j int) int64 {
+	if j == 0 {
+		return 0
+	}
+	return m[j-1]
 }
 
 func prevRecv(tr *LimitTrace, j int) int64 {
